@@ -4,6 +4,7 @@ import (
 	"fmt"
 	"go/token"
 	"go/types"
+	"strings"
 
 	"golang.org/x/tools/go/ssa"
 )
@@ -16,6 +17,31 @@ func init() {
 func c04(r *Report, s *Sem) {
 	p := r.P
 	a := s.anchors()
+	R12 := r.Rule("R12", "no deadline of one operation outlives it on a WebSocket connection: the library never re-arms deadlines per write or read there, so the only deadline it may install is the immediate one (time.Now()) that makes a blocked helper fail on cancellation — a deadline taken from a context stays on the connection and fails every later send made under a context without deadline, while both ends stay established", 2)
+	defer func() {
+		n := 0
+		for _, fn := range p.LimeFuncs() {
+			eachCall(fn, func(c ssa.CallInstruction) {
+				g := staticCallee(c)
+				if g == nil || g.Pkg == nil || !strings.HasSuffix(g.Pkg.Pkg.Path(), "gorilla/websocket") || !strings.HasSuffix(g.Name(), "Deadline") || !strings.HasPrefix(g.Name(), "Set") {
+					return
+				}
+				n++
+				now := false
+				for _, l := range backSlice(c.Common().Args[len(c.Common().Args)-1], 10) {
+					if cc, ok := l.(*ssa.Call); ok {
+						if h := cc.Call.StaticCallee(); h != nil && h.Pkg != nil && h.Pkg.Pkg.Path() == "time" && h.Name() == "Now" {
+							now = true
+						}
+					}
+				}
+				r.Check(R12, "func "+fnName(fn)+" / "+g.Name()+" on the WebSocket connection is immediate", p.instrPos(c), now, "the deadline is "+describe(c.Common().Args[len(c.Common().Args)-1])+", not derived from time.Now()")
+			})
+		}
+		if n == 0 {
+			r.Undecided(R12, "WebSocket deadlines", "-", "no Set*Deadline call on a WebSocket connection found")
+		}
+	}()
 	R11 := r.Rule("R11", "one consumer per channel: the goroutine that runs the client's dispatch loop is spawned by a single function with a single call site, in the constructor that allocates the Client (the server side has one serving goroutine per accepted transport, C14.R5) — two dispatchers on one channel take alternate envelopes and break the order", 1)
 	defer checkSingleDispatcher(r, s, R11)
 	defer r.Import(s, "C15", "K", "R10", "TCP keeps delivering after a quiet period: the polling wrappers re-arm, on every retry, a deadline computed from a fresh time.Now() and re-check the context (a deadline computed once per call has expired after the first poll interval: the receiver spins, nothing is delivered any more while both ends stay established)", 2, "(K2)")
